@@ -18,6 +18,7 @@ from lib.common import Result, Violation, InfraError
 from props import _conformance as conf
 
 OVERLAY = [os.path.join(common.HARNESS, "overlay", "snapstate", "zz_verif_hold_test.go")]
+CTL_OVERLAY = [os.path.join(common.HARNESS, "overlay", "ctlcmd", "zz_verif_hold_ctl_test.go")]
 INVS = ["TypeOK", "OtherBound", "GlobalBound", "UntilBound", "RefusedAtBound", "SystemSurvivesRefresh", "SystemLasts"]
 
 
@@ -64,13 +65,13 @@ def run(ctx):
     notes = []
     # ---------------------------------------------------------------- design
     cfg = ctx.pick("RefreshHold_mc.cfg", "RefreshHold_mc_thorough.cfg")
-    mc = tlc.run(ctx, "RefreshHold", cfg, coverage=True, workers=workers, timeout=ctx.pick(900, 3000),
+    mc = tlc.run(ctx, "RefreshHold", cfg, coverage=True, workers=workers, timeout=ctx.pick(1800, 7200),
                  heap=ctx.pick("6g", "12g"))
     if not mc.ok:
         raise InfraError("spec-level counterexample in RefreshHold/%s: %s" % (cfg, mc.summary()))
     tlc.require_coverage(mc, ["AHold", "ASystemHold", "AProceed", "ARefreshed", "APrune", "ATick"])
     ctx.log("TLC %s: %d distinct / %d generated, %.0fs" % (cfg, mc.distinct, mc.generated, mc.wall))
-    mcx = tlc.run(ctx, "RefreshHold", "RefreshHold_mc_explicit.cfg", workers=workers, timeout=ctx.pick(900, 1800),
+    mcx = tlc.run(ctx, "RefreshHold", "RefreshHold_mc_explicit.cfg", workers=workers, timeout=ctx.pick(1800, 3600),
                   name="tlc_explicit")
     if not mcx.ok:
         raise InfraError("spec-level counterexample in RefreshHold_mc_explicit: %s" % mcx.summary())
@@ -94,12 +95,20 @@ def run(ctx):
     samples = []
     corrupt = None
     real_refreshes = 0
-    for mode, tcfg, n, length in (("default", "TraceRefreshHold.cfg", ctx.pick(250, 4000), ctx.pick(32, 40)),
-                                  ("explicit", "TraceRefreshHoldExplicit.cfg", ctx.pick(60, 1000), ctx.pick(32, 40)),
+    hook_runs = 0
+    for mode, tcfg, n, length in (("default", "TraceRefreshHold.cfg", ctx.pick(250, 1500), ctx.pick(32, 40)),
+                                  ("explicit", "TraceRefreshHoldExplicit.cfg", ctx.pick(60, 400), ctx.pick(32, 40)),
                                   # refreshes through the real snapstate.Update + task runner (link-snap)
-                                  ("realrefresh", "TraceRefreshHold.cfg", ctx.pick(6, 80), 14)):
+                                  ("realrefresh", "TraceRefreshHold.cfg", ctx.pick(6, 80), 14),
+                                  # whole gate-auto-refresh hook runs: real hook handler + real snapctl refresh --hold/--proceed
+                                  ("hookrun", "TraceRefreshHold.cfg", ctx.pick(40, 1500), 14)):
+        if violations:
+            break       # already decided
         out = os.path.join(tdir, "hold_%s.ndjson" % mode)
-        entry = "^TestVerifHoldReal$" if mode == "realrefresh" else "^TestVerifHold$"
+        entry = {"realrefresh": "^TestVerifHoldReal$", "hookrun": "^TestVerifHoldCtl$"}.get(mode, "^TestVerifHold$")
+        if mode == "hookrun":
+            tb = goharness.overlay_test_build(ctx, "overlord/hookstate/ctlcmd", CTL_OVERLAY)
+            cwd = os.path.join(common.REPO, "overlord", "hookstate", "ctlcmd")
         rc, o = goharness.run_test_bin(ctx, tb, entry, cwd=cwd, timeout=1800,
                                        env={"VERIF_OUT": out, "VERIF_N": n, "VERIF_LEN": length,
                                             "VERIF_EXPLICIT": "1" if mode == "explicit" else "0"})
@@ -109,8 +118,10 @@ def run(ctx):
         for k in ("traces", "calls", "refused", "distinct_hold_states"):
             totals[k] += st[k]
         real_refreshes += st.get("real_refreshes", 0)
+        if mode == "hookrun":
+            hook_runs = st["calls"]
         totals["events"] += len(rows)
-        r = conf.two_pass(ctx, "TraceRefreshHold", tcfg, out, mode, timeout=ctx.pick(900, 3000))
+        r = conf.two_pass(ctx, "TraceRefreshHold", tcfg, out, mode, timeout=ctx.pick(1800, 7200))
         ctx.log("trace validation %s: %d events, accepted=%s" % (mode, len(rows), r["accepted"]))
         if not r["accepted"]:
             if r["kind"] == "stuck":
@@ -144,7 +155,8 @@ def run(ctx):
             "action_coverage": tlc.coverage_summary(mc),
             "invariants": INVS,
             "traces_validated_against_impl": totals["traces"],
-            "real_calls": totals["calls"], "refreshes_through_real_task_runner": real_refreshes, "real_events": totals["events"], "real_refusals": totals["refused"],
+            "real_calls": totals["calls"], "refreshes_through_real_task_runner": real_refreshes,
+            "real_gate_auto_refresh_hook_runs": hook_runs, "real_events": totals["events"], "real_refusals": totals["refused"],
             "distinct_real_hold_states": totals["distinct_hold_states"],
             "binding_selfcheck": corrupt,
             "samples": samples,
@@ -155,6 +167,8 @@ def run(ctx):
             "gate-auto-refresh error path (both pass holdDuration=0); explicit durations are bound for the 90-day rule only",
             "a hold episode of g on s is the lifetime of the entry snaps-hold[s][g] (a refusal or --proceed ends it)",
             "system holds requested for a time strictly in the future",
+            "hookrun traces use the real clock: time advances by shifting the stored timestamps, values are rounded to whole "
+            "virtual hours and ticks never land exactly on a boundary there (exact boundaries are covered by the mocked-clock traces)",
             "refresh = resetGatingForRefreshed (as doInstall calls it) + LastRefreshTime update (as doLinkSnap does) in the "
             "fast driver; the realrefresh traces go through snapstate.Update and the real link-snap handler instead",
         ],
